@@ -23,7 +23,7 @@ CLANG_FLAGS = ['-std=c++17', '-O1', '-fno-vectorize', '-fno-slp-vectorize', '-fn
 # CBMC 6 default checks stay on (bounds, pointer, pointer-primitive, div-by-zero, undefined-shift, unwinding assertions);
 # signed-overflow is off because ll2c emits unsigned arithmetic with explicit masks (LLVM add/sub/mul wrap unless nsw, and
 # -O1 IR from these headers relies on wrap-around in the hash functions). Allocation failure is outside every claim.
-CBMC_FLAGS = ['--verbosity', '8', '--unwinding-assertions', '--drop-unused-functions', '--no-malloc-may-fail', '--no-signed-overflow-check']
+CBMC_FLAGS = ['--verbosity', '8', '--max-field-sensitivity-array-size', '1024', '--unwinding-assertions', '--drop-unused-functions', '--no-malloc-may-fail', '--no-signed-overflow-check']
 
 
 def log(*a):
